@@ -33,6 +33,10 @@ prop("C10", "fault_enumeration",
      "exhaustive enumeration of peer scripts (every sequence of <=3/4 steps over a menu of correct and hostile frames) against the real acceptor and the real initiator over in-memory streams, plus every placement of one local fault (close / disable sync / actor shutdown) before each protocol step of real-vs-real sessions",
      "BobState::run and run_alice are driven over duplex streams by a scripted peer that owns a real replica (so 'correct next frame' is always available) and deviates at every step in every way of the menu; a frame relay injects one local fault before every incoming frame on either side. Both ends must return within the deadline without panic, into_outcome() must be callable after every outcome, a declined request leaves the store unchanged, and counters mirror on success.",
      "In-memory duplex transport; deadlines only as hang detectors with a 10x re-run.")
+prop("C12", "model_checking",
+     "exhaustive enumeration of all request sequences up to a depth (local/remote writes, messages of a reconciliation session with a real peer, subscriber churn, policy changes) through the real store actor, every subscriber's drained event list compared with the reference model after every acknowledged request",
+     "All sequences of <=4 (quick) / <=5 (thorough) requests over a 17-symbol alphabet through SyncHandle with up to 3 subscribers; per subscriber exactly one event per applied entry, in application order, carrying the entry, origin, peer, content status and the policy's download flag; nothing for rejected/superseded entries; unsubscribing or dropping one subscriber leaves the others unaffected.",
+     "Bounded depth; events compared after the acknowledging reply.")
 prop("C13", "model_checking",
      "exhaustive enumeration of all operation sequences up to a depth (inserts of a two-author universe, document removal and re-creation) on the real store against reference heads, plus exhaustive enumeration of small author-head sets x all size limits for the codec",
      "Heads and has_news_for_us are compared with the reference replica after every history of <=3 (quick) / <=4 (thorough) steps for all 16 peer reports; AuthorHeads::encode/decode is checked on all 2401 head sets of <=4 authors over 6 varint-edge timestamps (ties included) under every size limit.",
@@ -53,6 +57,10 @@ prop("C07", "model_checking",
      "explicit-state breadth-first search (canonical state taken from the implementation, de-duplicated) over capability imports, opens, closes, write attempts, secret export and store reopen on the real Store and on the real store actor, against a max-capability reference model",
      "Every (state, event) edge of the capability state machine for two documents up to depth 7/6 (quick) and 10/9 (thorough) is executed on a file-backed Store and through SyncHandle; listed kinds, export_secret_key, write outcomes and both documents' entries must equal the model after every event; importing for one document must not change the other.",
      "Two documents, one local and one remote key per document.")
+prop("C14", "model_checking",
+     "explicit-state breadth-first search over the request alphabet of the store actor for two documents, every history executed sequentially and pipelined on the real SyncHandle/actor thread, every reply compared with a handle-counting reference model, shutdown store compared with the model",
+     "Every (state, request) edge up to depth 4 (quick) / 6 (thorough) over 34 requests; replies, get_state, and the store returned by shutdown must equal the model; pipelined enqueueing must give the same replies as awaiting each one (request order).",
+     "Client concurrency is reduced to enqueue orders (single consumer, FIFO queue); drop_replica modelled as the API defines it.")
 prop("C15", "exploration",
      "exhaustive enumeration of all small policies x all small keys against the two-line definition, all small filters through their textual form, and set/get persistence incl. file reopen",
      "7814 policies (both kinds, <=2 exact/prefix filters over bytes {a,b,':',0xff,0x00}, length <=2) x 156 keys for matches; every filter Display->FromStr; set/get on existing and missing documents in memory and through reopen; should_download of real remote-insert events for all policies with <=1 filter x all keys.",
